@@ -23,7 +23,7 @@ REG = dict(category="exploration",
     design_ref="DESIGN.md §4 C07, §6")
 
 BATCH = 400
-MAX_REPORT = 8
+MAX_REPORT = 12
 
 
 # ---------------------------------------------------------------------------------------------
@@ -58,39 +58,46 @@ def run_batches(chk, recs, variant, name):
         for res, crashes in ex.map(one, batches):
             out += res
             allcrash += crashes
-    for r, cev, err in allcrash[:MAX_REPORT]:
-        # must reproduce in a process of its own
-        obs, rc, err2 = vlib.harness(chk.bins[variant], [r], timeout=600)
-        if rc != 0 or any(o.get("e") == "Crash" for o in obs) or len(obs) != 1:
-            tail = " | ".join(l for l in (err2 or err).strip().splitlines() if "ERROR" in l or "runtime error" in l or "SUMMARY" in l or "VERIFY_CHECK" in l or "test condition" in l)[:400]
-            chk.violation("%s on build '%s': %s crashed/aborted at %s (signal=%s sanitizer=%s) %s" %
-                          (name, variant, r["e"], cev["out"].get("stage"), cev["out"].get("signal"), cev["out"].get("san"), tail),
-                          [{"e": r["e"], "in": r["in"]}], variant)
-            chk.crash_events.append(cev)
-        else:
-            chk.notes.append("crash of %s on %s not reproduced in isolation" % (r["e"], variant))
-    if len(allcrash) > MAX_REPORT:
-        chk.notes.append("%d further crashes on %s not reported individually" % (len(allcrash) - MAX_REPORT, variant))
+    # report per crash site (entry point, API call in progress): at most 2 inputs per site, MAX_REPORT sites
+    sites = collections.OrderedDict()
+    for c in allcrash:
+        sites.setdefault((c[0]["e"], c[1]["out"].get("stage"), c[1]["out"].get("signal")), []).append(c)
+    for site, lst in list(sites.items())[:MAX_REPORT]:
+        for r, cev, err in lst[:2]:
+            # must reproduce in a process of its own
+            obs, rc, err2 = vlib.harness(chk.bins[variant], [r], timeout=600)
+            if rc != 0 or any(o.get("e") == "Crash" for o in obs) or len(obs) != 1:
+                tail = " | ".join(l.strip() for l in (err2 or err).strip().splitlines() if "ERROR" in l or "runtime error" in l or "SUMMARY" in l or "test condition" in l)[:400]
+                chk.violation("%s on build '%s': %s crashed/aborted at %s (signal=%s sanitizer=%s; %d inputs at this site) %s" %
+                              (name, variant, r["e"], cev["out"].get("stage"), cev["out"].get("signal"), cev["out"].get("san"), len(lst), tail),
+                              [{"e": r["e"], "in": r["in"]}], variant)
+                chk.crash_events.append(cev)
+            else:
+                chk.notes.append("crash of %s on %s not reproduced in isolation" % (r["e"], variant))
+    if len(sites) > MAX_REPORT:
+        chk.notes.append("%d further crash sites on %s not reported individually" % (len(sites) - MAX_REPORT, variant))
     log("[%s] %s on %s: %d records, %d crashes" % (chk.pid, name, variant, len(recs), len(allcrash)))
     return out
 
 
 def check_spec_out(chk, pairs, variant, name):
     """G comparison: every field of the specified out (icb, leak) must be present and equal"""
-    bad = 0
+    bad = collections.Counter()
     for r, o in pairs:
         if o is None or "out" not in r:
             continue
         d = vlib.sub_diff(r["out"], o["out"])
         if d:
-            again, _, _ = vlib.harness(chk.bins[variant], [r])
+            site = (r["e"], tuple(sorted(d.keys())))
+            bad[site] += 1
+            if bad[site] > 2 or len(bad) > MAX_REPORT:
+                continue
+            again, _, _ = vlib.harness(chk.bins[variant], [r])      # must reproduce
             if again and vlib.sub_diff(r["out"], again[0]["out"]):
-                bad += 1
-                if bad <= MAX_REPORT:
-                    chk.violation("%s on build '%s': specification and implementation disagree on %s" % (name, variant, sorted(d.keys())),
-                                  [{"e": r["e"], "in": r["in"], "out": r["out"], "impl_out": o["out"]}], variant)
+                chk.violation("%s on build '%s': %s: specification and implementation disagree on %s" % (name, variant, r["e"], sorted(d.keys())),
+                              [{"e": r["e"], "in": r["in"], "out": r["out"], "impl_out": o["out"]}], variant)
     chk.evaluations += len(pairs)
-    return bad
+    return sum(bad.values())
 
 
 def cross_check(chk, a, b, va, vb, name):
@@ -167,12 +174,12 @@ def make_artefacts(chk):
     art("UCommit", {"data": fx["commit"]}, 0, 1); art("UGenerator", {"data": fx["genh"]}, 0, 1); art("UOpening", {"data": fx["opening"]}, 0, 1)
     art("UPubnonce", {"data": fx["pubnonce"]}, 0, 1); art("UAggnonce", {"data": fx["aggnonce"]}, 0, 1); art("UPartialSig", {"data": fx["partialsig"]}, 0, 0)
     art("UMusigAdapt", {"data": fx["musig"]}, 0, 0); art("UEllswift", {"data": fx["ellswift"]}, 0, 0); art("UAdaptor", {"data": fx["adaptor"]}, 0, 1)
-    art("URangeproof", {"data": fx["rangeproof"]}, 1, 2)
+    art("URangeproof", {"data": fx["rangeproof"], "mcap": 7}, 1, 2)
     for e in ev[1:]:
         o = e["out"]
         if e["e"] == "UMakeRangeproof":
             i = {"data": o["data"], "commit": o["commit"], "gen": o["gen"], "nonce": o["nonce"]}
-            if "extra" in o: i["extra"] = o["extra"]
+            if "extra" in o: i["extra"] = o["extra"]; i["mcap"] = -1
             art("URangeproof", i, 1, 2)
         elif e["e"] == "UMakeSurjection":
             art("USurjection", {"data": o["data"], "tags": o["tags"], "outtag": o["outtag"]}, 1, 3)
@@ -185,11 +192,6 @@ def make_artefacts(chk):
             art("UBpppVerify", {"data": o["data"], "glen": o["glen"], "clen": o["clen"], "rho": o["rho"], "commit": o["commit"], "cvec": o["cvec"]}, 1, 1)
         elif e["e"] == "UMakeBpppGens":
             art("UBpppGens", {"data": o["data"]}, 1, 1)
-    # every artefact must pass on its own (otherwise the mutations explore nothing deep)
-    chk_ev = chk.record([{"e": a["e"], "in": a["in"]} for a in arts], "std")
-    notdeep = [a["e"] for a, e in zip(arts, chk_ev) if e["out"].get("ret") != 1]
-    if notdeep:
-        raise Infra("valid artefacts rejected by their own verifier: %s" % notdeep)
     return arts
 
 
@@ -232,32 +234,38 @@ def run(chk):
     quick = chk.tier == "quick"
     chk.groups = ["untrusted"]
     chk.crash_events = []
-    variants = ["std", "asan", "verify"]
-    with cf.ThreadPoolExecutor(max_workers=2) as ex:
-        fb = ex.submit(chk.build, variants)
-        gen = chk.generate(MODULE, "C07_gen.cfg", "grammar", timeout=3000)
-        fb.result()
+    chk.build(["std"])
     arts = make_artefacts(chk)
     apath = chk.out + "/arts.ndjson"
     vlib.write_ndjson(apath, arts)
-    mut = chk.generate(MODULE, "C07_mut.cfg", "mutations", env={"C07_ARTS": apath}, timeout=3000)
+    with cf.ThreadPoolExecutor(max_workers=2) as ex:
+        fb = ex.submit(chk.build, ["asan", "verify"])
+        recs = chk.generate(MODULE, "C07_gen.cfg", "generated", env={"C07_ARTS": apath}, timeout=3000)
+        fb.result()
+    mutcls = ("orig", "flip", "trunc", "ext", "sub32", "byte")
+    n_mut = sum(1 for r in recs if r.get("cls") in mutcls)
     drv = driver(chk, arts, 40 if quick else 400)
-    sets = [("grammar", gen), ("mutations of valid artefacts", mut)]
     trace = []
     per_entry = collections.Counter()
-    for name, recs in sets:
-        on_asan = run_batches(chk, recs, "asan", name)
-        on_std = run_batches(chk, recs, "std", name)
-        sample = recs if not quick else recs[::4]
-        on_ver = run_batches(chk, sample, "verify", name)
-        check_spec_out(chk, on_asan, "asan", name); check_spec_out(chk, on_std, "std", name); check_spec_out(chk, on_ver, "verify", name)
-        cross_check(chk, on_asan, on_std, "asan", "std", name)
-        cross_check(chk, on_ver, on_std[::4] if quick else on_std, "verify", "std", name)
-        for r, o in on_asan:
-            if o is not None:
-                trace.append(slim(o))
-                per_entry[r["e"]] += 1
-                chk.case_labels["%s/ret=%s/uses=%d" % (r["e"], o["out"].get("ret"), len(o["out"].get("use", {})))] += 1
+    per_class = collections.Counter(r.get("cls", "?") for r in recs)
+    name = "generated inputs (format grammars + mutations of valid artefacts)"
+    on_asan = run_batches(chk, recs, "asan", name)
+    on_std = run_batches(chk, recs, "std", name)
+    sample = recs if not quick else recs[::4]
+    on_ver = run_batches(chk, sample, "verify", name)
+    check_spec_out(chk, on_asan, "asan", name); check_spec_out(chk, on_std, "std", name); check_spec_out(chk, on_ver, "verify", name)
+    cross_check(chk, on_asan, on_std, "asan", "std", name)
+    cross_check(chk, on_ver, on_std[::4] if quick else on_std, "verify", "std", name)
+    # every unmutated artefact must be accepted on the sanitizer build (otherwise the mutations explore nothing deep)
+    notdeep = [r["e"] for r, o in on_asan if r.get("cls") == "orig" and o is not None and o["out"].get("ret") != 1]
+    if notdeep and not chk.violations:
+        raise Infra("valid artefacts rejected by their own verifier: %s" % notdeep)
+    full_input = {}
+    for r, o in on_asan:
+        if o is not None:
+            trace.append(slim(o)); full_input.setdefault(json.dumps(trace[-1], sort_keys=True), {"e": r["e"], "in": r["in"]})
+            per_entry[r["e"]] += 1
+            chk.case_labels["%s/ret=%s/uses=%d" % (r["e"], o["out"].get("ret"), len(o["out"].get("use", {})))] += 1
     # T: the driver's mutation stream, recorded from the sanitizer build (and the VERIFY build)
     d_asan = run_batches(chk, drv, "asan", "driver mutation stream")
     d_ver = run_batches(chk, drv, "verify", "driver mutation stream")
@@ -265,11 +273,20 @@ def run(chk):
     for r, o in d_asan:
         if o is not None:
             trace.append(slim(o)); per_entry[r["e"]] += 1
+            full_input.setdefault(json.dumps(trace[-1], sort_keys=True), {"e": r["e"], "in": r["in"]})
             chk.case_labels["T:%s/ret=%s/uses=%d" % (r["e"], o["out"].get("ret"), len(o["out"].get("use", {})))] += 1
     trace += chk.crash_events                      # a crash is an event the contract machine has no action for
     chk.samples.append({"direction": "spec->impl", "variant": "asan", "record": chk.shorten(trace[len(trace) // 2])})
     dist = distinct_events(trace)
+    nviol = len(chk.violations)
     chk.validate(dist, MODULE, "C07_trace.cfg", "contract", variant="asan", timeout=3000)
+    for v in chk.violations[nviol:]:          # rejected events were slimmed: append the exact input to the replay file
+        lines = open(v["replay"]).read().splitlines()
+        key = json.dumps(json.loads(lines[-1]), sort_keys=True)
+        if key in full_input:
+            with open(v["replay"], "w") as f:
+                f.write(lines[0] + "\n" + json.dumps(full_input[key], separators=(",", ":")) + "\n")
+            v["what"] += " -- %s out=%s" % (full_input[key]["e"], json.dumps(json.loads(lines[-1])["out"], separators=(",", ":"))[:300])
     chk.traces_validated += len(trace) - len(dist); chk.evaluations += len(trace) - len(dist)
     accepted = sum(1 for t in trace if t["out"].get("ret") == 1)
     return chk.finish(LEVEL,
@@ -283,7 +300,7 @@ def run(chk):
          "context arguments (keys, commitments, tag lists) are valid objects built by the library; only the untrusted bytes vary",
          "contract events are slimmed for TLC (byte arrays replaced by their length, digest dropped, identical events decided once): the contract does not depend on the bytes"],
         extra_cov={"per_entry_point": dict(per_entry), "artefacts": len(arts), "accepted_inputs": accepted, "crash_events": len(chk.crash_events), "distinct_events_decided_by_tlc": len(dist),
-                   "records": {"grammar": len(gen), "mutations": len(mut), "driver": len(drv)}})
+                   "records": {"grammar": len(recs) - n_mut, "mutations": n_mut, "driver": len(drv)}, "per_class": dict(per_class)})
 
 
 def replay(chk, path):
